@@ -120,6 +120,8 @@ func RunOp(st *State, op Op, id string, strict bool) bool {
 		case OpEndBlock:
 			t1 := nd.TimeRange("t1", TLo, THi)
 			nd.Assume(!t1.Before(st.T0))
+			// at most three whole take-rate intervals elapse (unrolling bound of the compounding loop)
+			nd.Assume(t1.Sub(st.Params.LastTakeRateClaimTime) <= 3*st.Params.TakeRateClaimInterval)
 			e.WithBlock(t1, 101)
 			err = alliance.EndBlocker(e.Ctx, e.K)
 		}
